@@ -312,6 +312,8 @@ def _const_term(x):
     return Const(x)
 
 
+_OPERATOR_BINOPS = {"operator.add": "Add", "operator.concat": "Add", "operator.mul": "Mult", "operator.sub": "Sub",
+                    "operator.or_": "BitOr", "operator.and_": "BitAnd", "operator.xor": "BitXor", "operator.mod": "Mod"}
 UNROLL_MAX = 40      # loops over longer known sequences are not unrolled (the callee stays an opaque call)
 
 
@@ -957,10 +959,11 @@ class Ev(object):
         """[elt for v in it] with one generator and no filter: map(lambda v: elt, it).
         A known list is mapped element-wise; otherwise the result is maplam(body, it)
         with the bound variable replaced by a positional placeholder (name-independent)."""
-        if len(n.generators) != 1 or n.generators[0].ifs or n.generators[0].is_async \
-                or not isinstance(n.generators[0].target, ast.Name):
+        g = n.generators[0] if n.generators else None
+        simple_t = g is not None and (isinstance(g.target, ast.Name) or (isinstance(g.target, (ast.Tuple, ast.List))
+                                                                         and all(isinstance(e, ast.Name) for e in g.target.elts)))
+        if len(n.generators) != 1 or g.ifs or g.is_async or not simple_t:
             return self._opaque_expr(tag, n, env, st)
-        g = n.generators[0]
         res = []
         for s1, it in self.expr(g.iter, env, st):
             it = self.take(it, s1)
@@ -973,11 +976,31 @@ class Ev(object):
                     for s2, acc in outs:
                         e2 = self._cp(env)
                         e2["locals"] = dict(e2["locals"])
-                        e2["locals"][g.target.id] = item
-                        for s3, v in self.expr(n.elt, e2, s2):
-                            nxt.append((s3, acc + (v,)))
+                        if not self.assign(g.target, item, e2, s2, self.site(n, env)):
+                            continue
+                        if tag == "dictcomp":
+                            for s3, kk in self.expr(n.key, e2, s2):
+                                for s4, v in self.expr(n.value, e2, s3):
+                                    nxt.append((s4, acc + ((kk, v),)))
+                        else:
+                            for s3, v in self.expr(n.elt, e2, s2):
+                                nxt.append((s3, acc + (v,)))
                     outs = nxt
-                res += [(s2, TupleV(acc, "list") if tag != "genexp" else self.new_iter(TupleV(acc, "list"), s2)) for s2, acc in outs]
+                for s2, acc in outs:
+                    if tag == "dictcomp":
+                        if all(isinstance(kk, Const) for kk, _ in acc):
+                            res.append((s2, DictV([(kk.v, v) for kk, v in acc])))
+                        else:
+                            res += self._opaque_expr(tag, n, env, s2)
+                    elif tag == "setcomp":
+                        res.append((s2, mk_app("set", (TupleV(acc, "list"),))))
+                    elif tag == "genexp":
+                        res.append((s2, self.new_iter(TupleV(acc, "list"), s2)))
+                    else:
+                        res.append((s2, TupleV(acc, "list")))
+                continue
+            if tag in ("dictcomp", "setcomp") or not isinstance(g.target, ast.Name):
+                res += self._opaque_expr(tag, n, env, s1)
                 continue
             ph = Sym("\u03bb%d" % self.depth)
             e2 = self._cp(env)
@@ -999,10 +1022,10 @@ class Ev(object):
         return self._comp_map("genexp", n, env, st)
 
     def e_SetComp(self, n, env, st):
-        return self._opaque_expr("setcomp", n, env, st)
+        return self._comp_map("setcomp", n, env, st)
 
     def e_DictComp(self, n, env, st):
-        return self._opaque_expr("dictcomp", n, env, st)
+        return self._comp_map("dictcomp", n, env, st)
 
     def e_JoinedStr(self, n, env, st):
         return self._opaque_expr("fstring", n, env, st)
@@ -1225,6 +1248,22 @@ class Ev(object):
             v = mk_app(name, args, kw) if name != "iter" else args[0]
             if isinstance(v, TupleV):
                 return [Outcome("return", self.new_iter(v, st), st)]
+        if name == "functools.reduce" and len(args) in (2, 3) and not kw and isinstance(args[1], TupleV) \
+                and (isinstance(args[0], (FuncV, Bound)) or (isinstance(args[0], ExtV) and args[0].name in _OPERATOR_BINOPS)):
+            items = list(args[1].items)
+            if len(args) == 3:
+                items = [args[2]] + items
+            if items:
+                outs = [(st, items[0])]
+                for item in items[1:]:
+                    nxt = []
+                    for s1, acc in outs:
+                        if isinstance(args[0], ExtV):
+                            nxt += self.binop(_OPERATOR_BINOPS[args[0].name], acc, item, s1, site)
+                        else:
+                            nxt += [(o.state, o.value) for o in self.call(args[0], (acc, item), (), s1, site)]
+                    outs = nxt
+                return [Outcome("return", v, s1) for s1, v in outs]
         if name == "map" and len(args) == 2 and not kw and isinstance(args[1], TupleV) and isinstance(args[0], (FuncV, Bound, ClassV)):
             # map(f, known sequence): element-wise (evaluated eagerly, like a generator)
             outs = [(st, ())]
